@@ -33,7 +33,7 @@ from mc.refs.syntax import _ENDS_DELIM, _STARTS_DELIM, Real, Seq, Speller, expec
 from pdfminer.pdfdocument import PDFDocument
 from pdfminer.pdfparser import PDFParser, PDFStreamParser
 from pdfminer.pdftypes import PDFObjRef
-from pdfminer.psparser import PSEOF, PSKeyword, PSLiteral
+from pdfminer.psparser import KWD, LIT, PSEOF, PSBaseParser, PSKeyword, PSLiteral, PSStackParser
 
 ID = "C01"
 LEVEL = "model_checking"
@@ -80,10 +80,10 @@ LEAVES: List[Any] = [
 KEYS = ["K", "Type", "A B", "é", "a#b", "x"]
 
 BOUNDS = {
-    "quick": {"atom_dev": 2, "long_dev": 1, "pair_dev": 1, "tree_dev": 1, "tree_nodes": 5, "tree_rot": 1, "pair_all_dicts": False, "seq_len": 2,
-              "doc_bufsiz": [4096, 1, 2, 3, 7], "split": {"atom": 1, "long": 1, "pair": 1, "tree": 1, "seq": 1, "seq0": 1}},
-    "thorough": {"atom_dev": 3, "long_dev": 2, "pair_dev": 1, "pair2_dev": 2, "tree_dev": 1, "tree_nodes": 6, "tree_rot": 3, "pair_all_dicts": True, "seq_len": 3,
-                 "doc_bufsiz": [4096, 1, 2, 3, 5, 7, 8, 13], "split": {"atom": 8, "long": 24, "pair": 1, "pair2": 4, "tree": 1, "seq": 1, "seq0": 1}},
+    "quick": {"atom_dev": 2, "long_dev": 1, "pair_dev": 1, "tree_dev": 1, "tree_nodes": 5, "tree_rot": 1, "pair_all_dicts": False, "seq_len": 2, "reuse_dev": 0,
+              "doc_bufsiz": [4096, 1, 2, 3, 7], "split": {"atom": 1, "long": 1, "pair": 1, "tree": 1, "seq": 1, "seq0": 1, "flood": 1, "reuse": 1}},
+    "thorough": {"atom_dev": 3, "long_dev": 2, "pair_dev": 1, "pair2_dev": 2, "tree_dev": 1, "tree_nodes": 6, "tree_rot": 3, "pair_all_dicts": True, "seq_len": 3, "reuse_dev": 1,
+                 "doc_bufsiz": [4096, 1, 2, 3, 5, 7, 8, 13], "split": {"atom": 8, "long": 24, "pair": 1, "pair2": 4, "tree": 1, "seq": 1, "seq0": 1, "flood": 1, "reuse": 1}},
 }
 
 
@@ -175,7 +175,19 @@ def seq_values(minlen: int, maxlen: int) -> List[Any]:
     return out
 
 
-FAMILIES = {"quick": ("atom", "long", "pair", "tree", "seq", "seq0"), "thorough": ("atom", "long", "pair", "pair2", "tree", "seq", "seq0")}
+# values made of names that no earlier read of the process has seen; read after FLOOD distinct names and keywords went
+# through the same process-wide symbol tables (history dimension: process-wide state)
+FLOOD = 70000
+FLOOD_VALUES: List[Any] = [
+    {"FreshKeyA": Name(b"FreshValA"), "FreshKeyB": [Name(b"FreshValA"), Name(b"FreshValB")]},
+    [Name(b"FreshTwice"), Name(b"FreshTwice"), None, True],
+    Seq([Name(b"FreshTop"), Name(b"FreshTop"), Ref(1, 0)]),
+    Name(b"Fresh\xe9"),
+]
+
+FAMILIES = {"quick": ("atom", "long", "pair", "tree", "seq", "seq0", "flood", "reuse"),
+            "thorough": ("atom", "long", "pair", "pair2", "tree", "seq", "seq0", "flood", "reuse")}
+MAXTASKS = 1  # one shard per worker process: process-wide state (symbol tables) of one shard cannot leak into another
 
 
 def family(fam: str, tier: str) -> Tuple[List[Any], int]:
@@ -184,6 +196,10 @@ def family(fam: str, tier: str) -> Tuple[List[Any], int]:
         return pair2_values(), b["pair2_dev"]
     if fam == "seq":  # every sequence up to seq_len objects, one deviation (separators incl. EOF/comment at the end, spellings)
         return seq_values(1, b["seq_len"]), 1
+    if fam == "flood":
+        return FLOOD_VALUES, 1
+    if fam == "reuse":  # one parser object used for several reads (read to the end, seek back, read again)
+        return seq_values(2, 3), b["reuse_dev"]
     if fam == "seq0":  # one object longer, canonical spelling only
         return seq_values(b["seq_len"] + 1, b["seq_len"] + 1), 0
     if fam == "atom":
@@ -204,7 +220,13 @@ META = {
         "adds %d more atoms; tree also holds bare top-level references and references at depth 3; seq: every sequence of up to seq_len top-level objects over a "
         "7-object pool (two integers, name, string, reference, array, null) with one deviation, seq0: every sequence one object longer in "
         "canonical spelling -- read through PDFStreamParser and, packed into an object stream with a cross-reference stream, through "
-        "PDFDocument.getobj of every contained object (PDFStreamParser.BUFSIZ set to doc_bufsiz as well); long: the 256 byte values as eight "
+        "PDFDocument.getobj of every contained object (PDFStreamParser.BUFSIZ set to doc_bufsiz as well); flood: 4 values made of names "
+        "never seen before, read (one deviation) after 70000 distinct names and 70000 distinct keywords went through the process-wide symbol "
+        "tables -- every name read must be the interned symbol (o is LIT(o.name), checked in all families); reuse: every sequence of 2-3 "
+        "objects (reuse_dev deviations) read by ONE parser object under the history read-to-end, then for every token/object offset "
+        "backwards and forwards seek(offset) + read-to-end, for a bare PSBaseParser (tokens), a flushing PSStackParser, PDFStreamParser "
+        "(BUFSIZ 4096, 1, 3) and PDFParser (PDFDocument(caching=False).getobj forwards, backwards, forwards) -- each read must equal a "
+        "first read from that offset; every shard runs in its own worker process; long: the 256 byte values as eight "
         "32-byte strings; pair: all ordered pairs of %d token-kind representatives as [a b], and as <</K a/L b>> (quick: every "
         "representative in each slot with two partners; thorough: all ordered pairs; thorough also pair2 = the same over 10 representatives "
         "with one more deviation); tree: all ordered "
@@ -270,9 +292,10 @@ def canon_obs(o: Any) -> Any:
     if type(o) is float:
         return ("real", repr(o + 0.0))  # zero has no sign in PDF: -0.0 and 0.0 are the same value
     if isinstance(o, PSLiteral):
-        return ("name", o.name)
+        # a name *is* its interned symbol: the library compares names with `is` / == (identity) against LIT(name)
+        return ("name", o.name) if o is LIT(o.name) else ("name-not-the-interned-symbol", o.name)
     if isinstance(o, PSKeyword):
-        return ("keyword", o.name)
+        return ("keyword", o.name) if o is KWD(o.name) else ("keyword-not-the-interned-symbol", o.name)
     if isinstance(o, bytes):
         return ("str", o)
     if isinstance(o, PDFObjRef):
@@ -627,6 +650,132 @@ class Judge:
 
 
 # --------------------------------------------------------------------------- shards
+def flood_symbols(n: int) -> int:
+    """Send n distinct names and n distinct keywords through the tokenizer (they end up in the process-wide symbol tables)."""
+    got = 0
+    for text in (b"[" + b" ".join(b"/Fl%d" % i for i in range(n)) + b"]", b" ".join(b"kw%dx" % i for i in range(n)) + b"\n"):
+        p = PDFStreamParser(text)
+        try:
+            while True:
+                _, o = p.nextobject()
+                got += len(o) if isinstance(o, list) else 1
+        except PSEOF:
+            pass
+    return got
+
+
+class _FlushingStackParser(PSStackParser):
+    """PSStackParser used the way the repository's own tests use it."""
+
+    def flush(self):
+        self.add_results(*self.popall())
+
+
+def _read_all(p, tokens: bool):
+    out = []
+    try:
+        while len(out) <= 64:
+            pos, o = p.nexttoken() if tokens else p.nextobject()
+            out.append((pos, canon_obs(o)))
+    except PSEOF:
+        pass
+    except Exception as e:  # noqa
+        out.append(("exc", _exc_name(e)))
+    return tuple(out)
+
+
+REUSE_KINDS = ("PSBaseParser", "PSStackParser", "PDFStreamParser", "PDFParser")
+REUSE_BUFSIZ = (4096, 1, 3)
+
+
+def reuse_protocol(kind: str, data: bytes, starts: List[int], bufsiz: int):
+    """One parser object, several reads.  Returns mismatches [(history, expected, observed)]: after any history of reads and
+    seeks the parser must hand back what a first read from that offset hands back."""
+    bad = []
+    if kind == "PDFParser":
+        bodies = [b" " + data[a:b] + b"\n" for a, b in zip(starts, list(starts[1:]) + [len(data)])]
+        doc, nums = build_doc(bodies, 3)
+        first = run_doc(doc, nums, bufsiz)
+        p = _CountingParser(io.BytesIO(doc))
+        p.BUFSIZ = bufsiz
+        p.nfill = 0
+        p.budget = 256 * len(doc) + 4096
+        try:
+            d = PDFDocument(p, caching=False)
+            order = list(range(len(nums))) + list(reversed(range(len(nums)))) + list(range(len(nums)))
+            hist = []
+            for j in order:
+                hist.append(nums[j])
+                try:
+                    got = ("ok", canon_obs(d.getobj(nums[j])))
+                except Exception as e:  # noqa
+                    got = ("exc", _exc_name(e))
+                if got != first[j]:
+                    bad.append((tuple(hist), first[j], got))
+                    break
+        except Exception as e:  # noqa
+            bad.append((("open",), "document opens", ("exc", _exc_name(e))))
+        return bad
+    tokens = kind == "PSBaseParser"
+    mk = {"PSBaseParser": lambda: PSBaseParser(io.BytesIO(data)), "PSStackParser": lambda: _FlushingStackParser(io.BytesIO(data)),
+          "PDFStreamParser": lambda: _CountingStreamParser(data)}[kind]
+
+    def fresh_from(off):
+        q = mk()
+        q.BUFSIZ = bufsiz
+        q.nfill = 0
+        q.budget = 64 * len(data) + 256
+        q.seek(off)
+        return _read_all(q, tokens)
+
+    p = mk()
+    p.BUFSIZ = bufsiz
+    p.nfill = 0
+    p.budget = 64 * 16 * len(data) + 4096
+    first = _read_all(p, tokens)
+    offs = [pos for pos, _ in first if isinstance(pos, int)] if tokens else list(starts)
+    hist: List[Any] = ["read-to-end"]
+    for j in list(reversed(range(len(offs)))) + list(range(len(offs))):
+        hist.append(("seek", offs[j]))
+        p.seek(offs[j])
+        got = _read_all(p, tokens)
+        want = fresh_from(offs[j])
+        hist.append("read-to-end")
+        if got != want:
+            bad.append((tuple(hist), want, got))
+            break
+    return bad
+
+
+def run_reuse(shard, tier, st):
+    fam, idx, r, R = shard
+    vals, bound = family(fam, tier)
+    value = vals[idx]
+    ex = ChoiceExplorer(lambda x: spell(x, value), mode="dev", bound=bound)
+    nsp = 0
+    for s, x in ex.run():
+        nsp += 1
+        st.traces += 1
+        for kind in REUSE_KINDS:
+            if kind == "PSStackParser" and any(isinstance(e, Ref) for e in value):
+                continue  # a plain PSStackParser has no notion of R
+            for b in REUSE_BUFSIZ:
+                bad = reuse_protocol(kind, s.data, s.item_starts, b)
+                st.add("reuse_histories", 1)
+                st.case(None, nontrivial=True, outcome=h64(kind, not bad))
+                for hist, want, got in bad:
+                    sig = f"C01/reuse:{kind}"
+                    st.violation(sig, {"seam": "reuse", "kind": "reuse", "parser": kind, "input": s.data, "starts": list(s.item_starts), "bufsiz": b,
+                                       "expected": want, "value": repr(value), "history": hist, "signature": sig}, want, got,
+                                 f"{kind} over {s.data!r} (BUFSIZ={b}) after the history {hist!r} reads {got!r}, a first read from there gives {want!r}")
+        if nsp == 1 and idx % 97 == 0:
+            st.sample({"family": fam, "value": repr(value), "spelling": s.data, "parsers": list(REUSE_KINDS), "bufsizes": list(REUSE_BUFSIZ)})
+    st.states += ex.states
+    st.transitions += ex.transitions
+    st.add("spellings", nsp)
+    st.add("values", 1)
+
+
 def shards(tier):
     out = []
     for fam in FAMILIES[tier]:
@@ -644,7 +793,7 @@ DOC_BATCH = 40
 def _judge_stream(st, J: Judge, s: Speller, ref, dep) -> None:
     exp = J.exp
     feats = [x for _, x in s.feats]
-    base = {"seam": "stream", "value": repr(J.value), "features": feats, "expected": exp, "spelling": s.data}
+    base = {"seam": "stream", "value": repr(J.value), "features": feats, "expected": exp, "spelling": s.data, **getattr(J, "extra_case", {})}
     want = J.want_stream
     if stream_value(ref) != want:
         for sig in J.misread_signatures(s, "stream", stream_value(ref)):
@@ -671,7 +820,7 @@ def _judge_doc(st, J: Judge, s: Speller, doc: bytes, num: int, ref, dep) -> None
         return
     # self-contained minimal file for the artefact if it shows the same thing
     one, nums1 = build_any_doc([s], 0)
-    base = {"seam": "getobj", "value": repr(J.value), "features": feats, "expected": exp, "object_text": s.data if s.item_starts else doc_body(s)}
+    base = {**getattr(J, "extra_case", {}), "seam": "getobj", "value": repr(J.value), "features": feats, "expected": exp, "object_text": s.data if s.item_starts else doc_body(s)}
     if ref != want:
         r1 = run_doc(one, nums1, 4096)[0]
         d, n, o = (one, nums1[0], r1) if r1 != want else (doc, num, ref)
@@ -687,10 +836,17 @@ def _judge_doc(st, J: Judge, s: Speller, doc: bytes, num: int, ref, dep) -> None
 
 def run_shard(shard, tier, st):
     fam, idx, r, R = shard
+    if fam == "reuse":
+        return run_reuse(shard, tier, st)
     vals, bound = family(fam, tier)
     value = vals[idx]
     bufsizes = BOUNDS[tier]["doc_bufsiz"]
+    extra_case: Dict[str, Any] = {}
+    if fam == "flood":
+        st.add("flooded_symbols", flood_symbols(FLOOD))
+        extra_case = {"flood": FLOOD}
     J = Judge(value, bufsizes)
+    J.extra_case = extra_case
     counters: Dict[str, int] = {}
     ex = ChoiceExplorer(lambda x: spell(x, value), mode="dev", bound=bound)
     batch: List[Speller] = []
@@ -743,6 +899,11 @@ def replay(case):
     exp = case["expected"]
     sig = case["signature"]
     kind = case["kind"]
+    if case.get("flood"):
+        flood_symbols(case["flood"])  # the process-wide history the case was observed under
+    if case["seam"] == "reuse":
+        bad = reuse_protocol(case["parser"], case["input"], list(case["starts"]), case["bufsiz"])
+        return [{"signature": sig, "expected": repr(w), "observed": repr(g)} for _, w, g in bad]
     if case["seam"] == "stream":
         r = _norm(run_stream(case["input"], case["bufsiz"]), case["prefix_len"])
         if kind == "misread":
